@@ -556,7 +556,29 @@ def impl_run(name, annots, args_text, stack):
 
 ARG_POOL = ['{}', '{ DROP }', '{ UNIT }', '{ DUP }', '{ SWAP }', '{ FAIL }', '{ DUP ; FAILWITH }', '{ DROP ; UNIT }',
             '{ DUP ; PAIR }', '{ UNIT ; SWAP ; PAIR }', '{ CAR }', '{ DIP { DROP } }', '{ UNIT ; DIP { UNIT } ; COMPARE ; EQ }',
-            '{ IF_NONE { UNIT } { DROP ; UNIT } }', '{ PAPAIR }', '{ DROP 2 }', '{ DUUP }']
+            '{ IF_NONE { UNIT } { DROP ; UNIT } }', '{ PAPAIR }', '{ DROP 2 }', '{ DUUP }',
+            # bodies that START with a DIP-family instruction and continue after it
+            '{ DIP { DROP } ; UNIT }', '{ DIP { UNIT } ; DROP }', '{ DIP 2 { UNIT } ; UNIT ; SWAP }', '{ DIIP { UNIT } ; UNIT }',
+            '{ DIP { DIP { UNIT } } ; DUP }', '{ DIP { UNIT ; SWAP } }']
+DIP_FIRST = [a for a in ARG_POOL if a.startswith('{ DI')]
+
+
+def arg_combos(rng, ar):
+    """code-argument tuples every macro with code arguments is tried with: empty blocks in every position, bodies starting with
+    a DIP-family instruction, and PRNG choices"""
+    X = lambda: rng.choice(ARG_POOL[1:])   # noqa: E731
+    if ar == 2:
+        return [('{}', '{}'), ('{}', X()), (X(), '{}'), (X(), X()), (rng.choice(DIP_FIRST), X())]
+    if ar == 1:
+        return [('{}',), (rng.choice(DIP_FIRST),), (rng.choice(DIP_FIRST),), (X(),)]
+    return [()]
+
+
+def stack_for(rng, name, texts):
+    """matching stack; with DIP-family code arguments enough extra items below, so that the (more permissive) nested-DIP
+    protection of the real interpreter on too-short stacks is not what is being observed"""
+    return matching_stack(rng, name, extra=rng.choice([4, 5]) if any('DI' in t for t in texts) else None)
+
 ANNOT_POOL = ['%a', '%b', '%c', '%', '@x', '@y', ':t', '%@', '@%', '@%%', '%long_name']
 _parsed = {}
 
@@ -729,16 +751,19 @@ def run(ctx: lib.Ctx) -> None:
 
     def variants(name):
         ar = arity(name)
-        canon_args = [parse_arg(rng.choice(ARG_POOL)) for _ in range(ar)]
-        yield (), canon_args
+        canon = tuple(rng.choice(ARG_POOL) for _ in range(ar))
+        yield (), canon
+        if ar:
+            for combo in arg_combos(rng, ar):
+                yield (), combo
         full = len(name) <= ctx.n(7, 9) or not re.fullmatch(r'(UN)?P[PAI]{3,}R', name) or wf_tree(name[2:] if name.startswith('UN') else name)
         if full or rng.random() < ctx.n(10, 30) / 100:
             k = rng.choice([1, 1, 2, 3, 4, 6])
-            yield tuple(rng.choice(ANNOT_POOL) for _ in range(k)), canon_args
+            yield tuple(rng.choice(ANNOT_POOL) for _ in range(k)), canon
         if full:
-            yield tuple(rng.sample(['%a', '%b', '%c', '%d', '%e', '%f', '%g'], rng.randrange(1, 7))) + (('@v',) if rng.random() < 0.5 else ()), canon_args
+            yield tuple(rng.sample(['%a', '%b', '%c', '%d', '%e', '%f', '%g'], rng.randrange(1, 7))) + (('@v',) if rng.random() < 0.5 else ()), canon
             wrong = ar + rng.choice([-1, 1, 2]) if ar else rng.choice([1, 2])
-            yield (), [parse_arg(rng.choice(ARG_POOL)) for _ in range(max(wrong, 0))]
+            yield (), tuple(rng.choice(ARG_POOL) for _ in range(max(wrong, 0)))
 
     mutated = set()
     pool = [n for n in names if len(n) <= 9]
@@ -757,7 +782,8 @@ def run(ctx: lib.Ctx) -> None:
 
     cases, meta = [], []
     for name in names + mutated:
-        for annots, args in variants(name):
+        for annots, texts in variants(name):
+            args = [parse_arg(t) for t in texts]
             out = impl_expand(name, annots, args)
             if out is not None and out and out[0] == '<not a list>':
                 ctx.violation('expand_macro returned a non-list', {'name': name, 'out': out[1]}, found=False)
@@ -767,7 +793,7 @@ def run(ctx: lib.Ctx) -> None:
             except (KeyError, lib.InternalError):
                 lit = 'None'   # something that is not Micheline at all
             cases.append((f'({cstr(name)}, {clist(chex(a.encode()) for a in annots)}, {clist(lib.cnode(a) for a in args)})', lit))
-            meta.append((name, annots, args, out))
+            meta.append((name, annots, args, out, texts))
             kind = 'rejected' if out is None else ('mutated-accepted' if name in mutated_only else
                                                     re.sub(r'(EQ|NEQ|LT|GT|LE|GE)$', 'op', re.sub(r'[PAI]{3,}R$', '..R', re.sub(r'[AD]+R$', 'x..R', re.sub(r'(II+|UU+)P$', 'xxP', name)))))
             ctx.case(('syn', name, annots, repr(args)), nontrivial=out is not None and len(out) + sum(isinstance(x, list) for x in out) >= 2,
@@ -778,7 +804,7 @@ def run(ctx: lib.Ctx) -> None:
     T['syntactic_coq'] = round(time.time() - t0, 1)
     ctx.extra['syntactic_cases'] = len(cases)
     if bad:
-        name, annots, args, out = meta[bad[0]]
+        name, annots, args, out, _texts = meta[bad[0]]
         rep = {'correspondence': 'C19/expand_macro vs Michelson.Macros.expand', 'name': name, 'annots': list(annots), 'args': args,
                'implementation': out, 'model': ctx.coq_eval(IMPORTS, f"let '(n, a, g) := {cases[bad[0]][0]} in expand n a g"),
                'disagreements': len(bad), 'repro': f'pytezos.michelson.macros.expand_macro({name!r}, {list(annots)!r}, {args!r})'}
@@ -796,21 +822,40 @@ def run(ctx: lib.Ctx) -> None:
         cands = [(n, first_annots[n]) for n in bad_names[:60]]
         if any(re.fullmatch(r'(UN)?P[PAI]{3,}R', n) for n in bad_names):
             cands += [(n, ()) for w in wf_tree_names(7) for n in (w, 'UN' + w)]
-        for cname, cannots in cands:
+        def attempt(cname, ann, texts, st):
+            code, got = impl_run(cname, ann, texts, st)
+            want = ref_outcome(cname, [parse_arg(t) for t in texts], [v for _, v in st])
+            if want is not None and got is not None and got != want:
+                return {'failing_macro': cname, 'code': code, 'interpreter': got, 'reference_meaning': want,
+                        'repro': f'Interpreter().execute({code!r})'}
+            return None
+        # (a) the disagreeing calls themselves, with their actual code arguments
+        for i in bad[:80]:
+            cname, cannots, _a, _o, texts = meta[i]
+            if len(texts) != arity(cname):
+                continue
+            for k in range(4):
+                st = (distinct_stack(cname) if k == 0 else None) or stack_for(rng, cname, texts)
+                ann = [a for a in cannots if annots_allowed(cname)]
+                if cname.startswith('MAP_C') and sum(a.startswith('%') for a in ann) > 1:
+                    ann = []
+                found = attempt(cname, ann, list(texts), st)
+                if found:
+                    break
+            if found:
+                break
+        # (b) the disagreeing names (and the tree families) with other arguments
+        for cname, cannots in ([] if found else cands):
             ar = arity(cname)
-            for k in range(6 if ar else 3):
-                st = distinct_stack(cname) if k == 0 else None
-                if st is None:
-                    st = matching_stack(rng, cname)
-                texts = [rng.choice(ARG_POOL) for _ in range(ar)]
+            for k, texts in enumerate(arg_combos(rng, ar) + [()] * 2 if ar else [(), (), ()]):
+                if len(texts) != ar:
+                    continue
+                st = (distinct_stack(cname) if k == 0 else None) or stack_for(rng, cname, texts)
                 ann = [a for a in cannots if annots_allowed(cname)] if k % 2 == 0 else []
                 if cname.startswith('MAP_C'):
                     ann = ann[:1]
-                code, got = impl_run(cname, ann, texts, st)
-                want = ref_outcome(cname, [parse_arg(t) for t in texts], [v for _, v in st])
-                if want is not None and got != want:
-                    found = {'failing_macro': cname, 'code': code, 'interpreter': got, 'reference_meaning': want,
-                             'repro': f'Interpreter().execute({code!r})'}
+                found = attempt(cname, ann, list(texts), st)
+                if found:
                     break
             if found:
                 break
@@ -838,19 +883,22 @@ def run(ctx: lib.Ctx) -> None:
     reps = ctx.n(2, 4)
     cases, meta = [], []
     for name in sem_names:
-        for rep_i in range(reps):
-            ar = arity(name)
-            texts = [rng.choice(ARG_POOL) for _ in range(ar)]
+        ar = arity(name)
+        plan = [tuple(rng.choice(ARG_POOL) for _ in range(ar)) for _ in range(reps)]
+        if ar and (not name.startswith('MAP_C') or len(name) <= 9):
+            plan = arg_combos(rng, ar) + plan[:1]
+        for rep_i, texts in enumerate(plan):
+            texts = list(texts)
             annots = ()
             if annots_allowed(name) and rng.random() < 0.5:
                 annots = tuple(rng.choice(['%a', '%b', '@x', '%c']) for _ in range(rng.randrange(1, 4)))
                 if name.startswith('MAP_C') and sum(a.startswith('%') for a in annots) > 1:
                     annots = annots[:1]
-            st = matching_stack(rng, name)
+            st = stack_for(rng, name, texts)
             if rep_i == 0 and distinct_stack(name) is not None:
                 st = distinct_stack(name)
             shape = 'match'
-            if rep_i == reps - 1 and rng.random() < 0.7:
+            if rep_i == len(plan) - 1 and rng.random() < 0.7:
                 st = perturb(rng, st)
                 shape = 'perturbed'
             args = [parse_arg(t) for t in texts]
